@@ -10,8 +10,13 @@ CLAIMED = {
          "slice co-indexes every per-frame field (incl. the cached traces) with the same key; every write that bypasses the xyz setter "
          "resets the cache before normal exit; join/stack completeness; no public analysis/save function writes through its trajectory "
          "argument (definite writes found in Python, Cython and C bodies).", _NOTE, "DESIGN.md §4 C03"),
+ "C04": ("dependence analysis (backward slices) over rebuilders, writer/reader key-table agreement, transitive hash/eq field-set inclusion, CFG must-pass-through, affine counter summaries",
+         "Every topology rebuilder (copy, join, subset, PDB reader, data frame and HDF5 JSON carriers) is checked argument by argument for "
+         "preservation of chain_id/name/resSeq/segment_id/element/serial/type/order and for re-pointing of bonds through an old->new map; "
+         "equality => equal hash is decided as a field-set inclusion; list/counter pairing and PDB ATOM/CONECT numbering agreement are decided "
+         "structurally.", _NOTE, "DESIGN.md §4 C04"),
 }
 _PENDING = "check not built yet in this round (design in DESIGN.md §4); will be claimed when its rules run clean"
-NA = {k: _PENDING for k in ["C01","C02","C04","C05","C06","C07","C08","C09","C10","C11","C12","C13","C14","C15","C17","C18","C19"]}
+NA = {k: _PENDING for k in ["C01","C02","C05","C06","C07","C08","C09","C10","C11","C12","C13","C14","C15","C17","C18","C19"]}
 NA["C16"] = ("every clause is numerical equality of computed arrays with closed-form expressions; no structural "
              "necessary condition covers more than one of the fifteen functions (DESIGN.md §5)")
